@@ -127,6 +127,22 @@ impl RetryPolicyWrapper {
     }
 }
 
+#[cfg(feature = "verif-hooks")]
+impl RetryPolicyWrapper {
+    /// Put the policy in a chosen state without sleeping through the
+    /// exponential back-off: `current_tries` failures so far, the last one
+    /// just now, followed by a back-off window of `wait`.
+    pub fn verif_force(&mut self, current_tries: usize, wait: time::Duration) {
+        match self {
+            RetryPolicyWrapper::ExponentialBackoff(p) => {
+                p.current_tries = cmp::min(current_tries, p.max_tries);
+                p.last_try = time::Instant::now();
+                p.wait = wait;
+            }
+        }
+    }
+}
+
 impl From<ExponentialBackoffPolicy> for RetryPolicyWrapper {
     fn from(val: ExponentialBackoffPolicy) -> Self {
         RetryPolicyWrapper::ExponentialBackoff(val)
